@@ -22,7 +22,7 @@ ASSUMPTIONS = [
 ]
 MONITORS = ("independent walk + lstat/readlink/inode of the workspace; audit-hook recorder proving zero filesystem mutations in "
             "workspace and cache during the second checkout; byte snapshot of the cache; link record checked through get_unused_links")
-REQUIRED_COUNTERS = ["priors_with_interrupted_copy_leftover", "dir_removed_between_checkouts", "priors_with_foreign_hardlinks", "sequences", "second_checkouts_audited", "relinks_checked", "files_link_type_checked", "cache_snapshots_compared",
+REQUIRED_COUNTERS = ["workspace_path_spelled_non_canonically", "priors_with_interrupted_copy_leftover", "dir_removed_between_checkouts", "priors_with_foreign_hardlinks", "sequences", "second_checkouts_audited", "relinks_checked", "files_link_type_checked", "cache_snapshots_compared",
                      "link_records_checked", "pair/copy->hardlink", "pair/hardlink->symlink", "pair/symlink->copy", "pair/copy->symlink",
                      "pair/hardlink->copy", "pair/symlink->hardlink", "store/local", "store/base", "single_file_cases"]
 
@@ -72,6 +72,11 @@ def run_shard(ctx):
                 oobj = colab.populate(odb, d, O, "osrc")
             ws = os.path.join(d, "ws", "out")
             os.makedirs(os.path.dirname(ws))
+            # the path handed to checkout may be a legal non-canonical spelling of the workspace path
+            spelling = rng.choice(["canonical"] * 5 + ["trailing-separator", "dot", "dotdot"]) if not single else "canonical"
+            wsp = {"canonical": ws, "trailing-separator": ws + os.sep, "dot": os.path.join(d, "ws", ".", "out"), "dotdot": os.path.join(d, "ws", "out", "..", "out")}[spelling]
+            if spelling != "canonical":
+                res.count("workspace_path_spelled_non_canonically")
             # prior state: checkout of T or O with the existing link type, then user edits
             from_other = (not single) and rng.random() < 0.5
             prior_files = dict(O if from_other else T)
@@ -116,7 +121,7 @@ def run_shard(ctx):
                     f.write(b"partial copy")
                 prior_files[(*lv, nm)] = b"partial copy"
                 res.count("priors_with_interrupted_copy_leftover")
-            cfg = {"store": cls, "existing": existing, "configured": configured, "state": use_state, "single": single,
+            cfg = {"ws_spelling": spelling, "store": cls, "existing": existing, "configured": configured, "state": use_state, "single": single,
                    "target": sorted("/".join(k) for k in T), "prior": sorted("/".join(k) for k in prior_files), "ext4": case % 9 == 4, "foreign_hardlinks": foreign}
             res.evaluated()
             res.count("sequences")
@@ -146,7 +151,7 @@ def run_shard(ctx):
             cfg["direct_relink"] = direct_relink
             if direct_relink:
                 res.count("direct_relink_from_prior")
-                checkout(ws, fs, target, odb, force=True, relink=True, state=state)
+                checkout(wsp, fs, target, odb, force=True, relink=True, state=state)
                 if not check_bytes("relink-from-prior"):
                     return
             else:
@@ -156,14 +161,14 @@ def run_shard(ctx):
 
                     _s0, _m0, old = build(odb, ws, fs, "md5", dry_run=True)
                     res.count("old_given")
-                ret1 = checkout(ws, fs, target, odb, force=True, state=state, old=old)
+                ret1 = checkout(wsp, fs, target, odb, force=True, state=state, old=old)
                 if not check_bytes("forced-checkout"):
                     return
                 if state is not None and ret1 is not None:
                     check_link_record(res, state, ws, fs, case, cfg, "forced-checkout")
             # 2. second checkout: nothing to do, nothing touched
             with Recorder([ws, croot]) as rec:
-                ret2 = checkout(ws, fs, target, odb, force=rng.random() < 0.5, state=state)
+                ret2 = checkout(wsp, fs, target, odb, force=rng.random() < 0.5, state=state)
             res.count("second_checkouts_audited")
             if ret2 is not None:
                 res.violation("second-checkout-not-noop/return-value", f"second checkout returned {ret2!r}", case=case, detail=cfg)
@@ -171,7 +176,7 @@ def run_shard(ctx):
                 res.violation("second-checkout-not-noop/filesystem-mutation", f"second checkout issued {rec.events[:3]}", case=case, detail=cfg)
             check_bytes("second-checkout")
             # 3. relinking checkout -> configured type everywhere
-            checkout(ws, fs, target, odb, force=True, relink=True, state=state)
+            checkout(wsp, fs, target, odb, force=True, relink=True, state=state)
             res.count("relinks_checked")
             if check_bytes("relink"):
                 want = "copy" if configured == "reflink" else configured
@@ -197,7 +202,7 @@ def run_shard(ctx):
             if state is not None:
                 check_link_record(res, state, ws, fs, case, cfg, "relink")
             # 4. a second relinking checkout keeps bytes and types
-            checkout(ws, fs, target, odb, force=True, relink=True, state=state)
+            checkout(wsp, fs, target, odb, force=True, relink=True, state=state)
             check_bytes("second-relink")
             # 5. the user removes a sub-directory; checking out the same path again (same process) restores it
             subdirs = sorted({k[:i] for k in T for i in range(1, len(k))}) if not single else []
@@ -206,7 +211,7 @@ def run_shard(ctx):
 
                 res.count("dir_removed_between_checkouts")
                 shutil.rmtree(os.path.join(ws, *rng.choice(subdirs)))
-                checkout(ws, fs, target, odb, force=True, relink=rng.random() < 0.3, state=state)
+                checkout(wsp, fs, target, odb, force=True, relink=rng.random() < 0.3, state=state)
                 check_bytes("checkout-after-dir-removed")
             # cache bytes
             res.count("cache_snapshots_compared")
